@@ -1,5 +1,6 @@
 import GqlModel.ArgMap
 import GqlModel.Vars.Spec
+import GqlProofs.Lemmas.FloatLexeme
 /- helper lemmas for C15 -/
 namespace Gql
 open Gql.Strconv
@@ -33,7 +34,7 @@ def DfltOk (dflt : Name → Option (ConvRes GoVal)) : Prop := ∀ n r, dflt n = 
 
 mutual
   theorem vvw_ok (dflt : Name → Option (ConvRes GoVal)) (vars : VarMap) :
-      (v : Value) → convertsB v = true → (constB v = true ∨ DfltOk dflt) → ∃ x, valueValueWith dflt vars v = .ok x
+      (v : Value) → syntaxOkB v = true → (constB v = true ∨ DfltOk dflt) → ∃ x, valueValueWith dflt vars v = .ok x
     | .mk kind raw ch p, hv, hd => by
       cases kind
       case «variable» =>
@@ -48,23 +49,23 @@ mutual
             · simp [constB] at hd
             · obtain ⟨x, hx⟩ := hd raw r h2; exact ⟨x, by simp [hx]⟩
       case int =>
-        simp only [convertsB, parseIntOk] at hv
+        simp only [syntaxOkB] at hv
         simp only [valueValueWith]
         cases h : parseInt raw <;> simp_all
       case float =>
-        simp only [convertsB, parseFloatOk] at hv
+        simp only [syntaxOkB] at hv
         simp only [valueValueWith]
         cases h : parseFloat raw <;> simp_all
       case string => exact ⟨.str raw, by simp [valueValueWith]⟩
       case block => exact ⟨.str raw, by simp [valueValueWith]⟩
       case enum => exact ⟨.str raw, by simp [valueValueWith]⟩
       case boolean =>
-        simp only [convertsB] at hv
+        simp only [syntaxOkB] at hv
         simp only [valueValueWith]
         cases h : parseBool raw <;> simp_all
       case null => exact ⟨.nil, by simp [valueValueWith]⟩
       case list =>
-        simp only [convertsB] at hv
+        simp only [syntaxOkB] at hv
         have hd' : childrenConstB ch = true ∨ DfltOk dflt := by
           rcases hd with hd | hd
           · left; simpa [constB] using hd
@@ -72,7 +73,7 @@ mutual
         obtain ⟨xs, hxs⟩ := lvw_ok dflt vars ch hv hd'
         exact ⟨.slice .iface xs, by simp [valueValueWith, hxs]⟩
       case object =>
-        simp only [convertsB] at hv
+        simp only [syntaxOkB] at hv
         have hd' : childrenConstB ch = true ∨ DfltOk dflt := by
           rcases hd with hd | hd
           · left; simpa [constB] using hd
@@ -80,11 +81,11 @@ mutual
         obtain ⟨xs, hxs⟩ := ovw_ok dflt vars ch hv hd' .nil
         exact ⟨.map .iface xs, by simp [valueValueWith, hxs]⟩
   theorem lvw_ok (dflt : Name → Option (ConvRes GoVal)) (vars : VarMap) :
-      (c : Children) → childrenConvertB c = true → (childrenConstB c = true ∨ DfltOk dflt) →
+      (c : Children) → childrenSyntaxOkB c = true → (childrenConstB c = true ∨ DfltOk dflt) →
         ∃ xs, listValueWith dflt vars c = .ok xs
     | .nil, _, _ => ⟨.nil, by simp [listValueWith]⟩
     | .cons n v p rest, hv, hd => by
-      simp only [childrenConvertB, Bool.and_eq_true] at hv
+      simp only [childrenSyntaxOkB, Bool.and_eq_true] at hv
       have hd1 : constB v = true ∨ DfltOk dflt := by
         rcases hd with hd | hd
         · left; simp only [childrenConstB, Bool.and_eq_true] at hd; exact hd.1
@@ -97,11 +98,11 @@ mutual
       obtain ⟨xs, hxs⟩ := lvw_ok dflt vars rest hv.2 hd2
       exact ⟨.cons x xs, by simp [listValueWith, hx, hxs]⟩
   theorem ovw_ok (dflt : Name → Option (ConvRes GoVal)) (vars : VarMap) :
-      (c : Children) → childrenConvertB c = true → (childrenConstB c = true ∨ DfltOk dflt) →
+      (c : Children) → childrenSyntaxOkB c = true → (childrenConstB c = true ∨ DfltOk dflt) →
         ∀ acc, ∃ kvs, objectValueWith dflt vars c acc = .ok kvs
     | .nil, _, _, acc => ⟨acc, by simp [objectValueWith]⟩
     | .cons n v p rest, hv, hd, acc => by
-      simp only [childrenConvertB, Bool.and_eq_true] at hv
+      simp only [childrenSyntaxOkB, Bool.and_eq_true] at hv
       have hd1 : constB v = true ∨ DfltOk dflt := by
         rcases hd with hd | hd
         · left; simp only [childrenConstB, Bool.and_eq_true] at hd; exact hd.1
@@ -121,14 +122,14 @@ namespace Gql
 open Gql.Strconv
 
 theorem valueValueLvl_const_ok (vdefs : List VarDef) (vars : VarMap) (k : Nat) (dv : Value)
-    (hc : convertsB dv = true) (hk : constB dv = true) : ∃ x, valueValueLvl vdefs vars k dv = .ok x := by
+    (hc : syntaxOkB dv = true) (hk : constB dv = true) : ∃ x, valueValueLvl vdefs vars k dv = .ok x := by
   cases k <;> exact vvw_ok _ vars dv hc (Or.inl hk)
 
 theorem findVarDef_mem {vdefs : List VarDef} {n : Name} {d : VarDef} (h : findVarDef vdefs n = some d) : d ∈ vdefs :=
   List.mem_of_find?_eq_some h
 
 theorem valueValue_ok (vdefs : List VarDef) (vars : VarMap) (v : Value)
-    (hv : convertsB v = true) (hd : DefaultsConvert vdefs) : ∃ x, valueValue vdefs vars v = .ok x := by
+    (hv : syntaxOkB v = true) (hd : DefaultsSyntaxOk vdefs) : ∃ x, valueValue vdefs vars v = .ok x := by
   unfold valueValue
   simp only [valueValueLvl]
   apply vvw_ok _ vars v hv
@@ -269,6 +270,108 @@ theorem parseInt_decimalLiteral {raw : Bytes} {n : Int} (hl : intLexeme raw = tr
             · simp only [fitsInt64, Bool.and_eq_true, decide_eq_true_eq]; omega
         · simp [parseInt, hc, hc43, hp] at h
 
+/-- the accumulator only grows -/
+theorem foldl_digits_ge : ∀ (ds : Bytes) (n : Nat), n ≤ ds.foldl (fun acc c => acc * 10 + (c - 48)) n
+  | [], n => by simp
+  | c :: r, n => by
+    simp only [List.foldl_cons]
+    exact Nat.le_trans (by omega) (foldl_digits_ge r (n * 10 + (c - 48)))
+
+/-- the loop of `ParseUint` on a run of digits: never a syntax error; the value, or overflow
+    exactly when the number denoted exceeds 2^64 − 1 -/
+theorem parseUintLoop_digits : ∀ (ds : Bytes) (n : Nat), ds.all isDigit = true →
+    ∃ v ovf, parseUintLoop ds n = some (v, ovf) ∧
+      (ovf = false → v = ds.foldl (fun acc c => acc * 10 + (c - 48)) n) ∧
+      (ovf = true → maxU64 < ds.foldl (fun acc c => acc * 10 + (c - 48)) n)
+  | [], n, _ => ⟨n, false, by simp [parseUintLoop]⟩
+  | c :: r, n, h => by
+    simp only [List.all_cons, Bool.and_eq_true] at h
+    simp only [parseUintLoop, h.1, if_true, List.foldl_cons]
+    by_cases h1 : n ≥ cutoffU64
+    · refine ⟨maxU64, true, by simp [h1], by simp, fun _ => ?_⟩
+      have := foldl_digits_ge r (n * 10 + (c - 48))
+      simp only [cutoffU64, maxU64] at *
+      omega
+    · by_cases h2 : n * 10 + (c - 48) > maxU64
+      · refine ⟨maxU64, true, by simp [h1, h2], by simp, fun _ => ?_⟩
+        have := foldl_digits_ge r (n * 10 + (c - 48))
+        omega
+      · obtain ⟨v, ovf, e, a, b⟩ := parseUintLoop_digits r (n * 10 + (c - 48)) h.2
+        exact ⟨v, ovf, by simp [h1, h2, e], a, b⟩
+
+/-- an integer lexeme has a decimal value `i`; `ParseInt` returns `i`, or a range error exactly when
+    `i` does not fit int64 — never a syntax error -/
+theorem parseInt_lexeme {raw : Bytes} (hl : intLexeme raw = true) :
+    ∃ i, decimalLiteral raw = some i ∧
+      ((parseInt raw = .ok i ∧ fitsInt64 i = true) ∨ (∃ c, parseInt raw = .range c) ∧ fitsInt64 i = false) := by
+  cases raw with
+  | nil => simp [intLexeme] at hl
+  | cons c rest =>
+    by_cases hc : c = 45
+    · subst hc
+      simp only [intLexeme, Bool.and_eq_true, Bool.not_eq_true', List.isEmpty_eq_false_iff] at hl
+      cases rest with
+      | nil => simp at hl
+      | cons c2 r2 =>
+        obtain ⟨v, ovf, e, a, b⟩ := parseUintLoop_digits (c2 :: r2) 0 hl.2
+        refine ⟨-((c2 :: r2).foldl (fun acc c => acc * 10 + (c - 48)) 0 : Nat), by simp [decimalLiteral, hl.2], ?_⟩
+        generalize List.foldl (fun acc c => acc * 10 + (c - 48)) 0 (c2 :: r2) = N at a b ⊢
+        cases ovf
+        · have hv := a rfl
+          subst hv
+          by_cases hgt : v > 9223372036854775808
+          · right
+            refine ⟨⟨_, by simp [parseInt, e, hgt]; rfl⟩, ?_⟩
+            simp only [fitsInt64, Bool.and_eq_false_iff, decide_eq_false_iff_not]; omega
+          · left
+            refine ⟨by simp [parseInt, e, hgt], ?_⟩
+            simp only [fitsInt64, Bool.and_eq_true, decide_eq_true_eq]; omega
+        · have hv := b rfl
+          right
+          refine ⟨⟨_, by simp [parseInt, e]; rfl⟩, ?_⟩
+          simp only [maxU64] at hv
+          simp only [fitsInt64, Bool.and_eq_false_iff, decide_eq_false_iff_not]; omega
+    · have hl' : (c :: rest).all isDigit = true := by
+        simp only [intLexeme] at hl
+        split at hl
+        · rename_i ds heq; cases heq; exact absurd rfl hc
+        · simpa using hl
+      have hcd : isDigit c = true := by simp only [List.all_cons, Bool.and_eq_true] at hl'; exact hl'.1
+      have hc43 : c ≠ 43 := by
+        intro h43; subst h43; simp [isDigit] at hcd
+      obtain ⟨v, ovf, e, a, b⟩ := parseUintLoop_digits (c :: rest) 0 hl'
+      have hdl : decimalLiteral (c :: rest) = some (((c :: rest).foldl (fun acc c => acc * 10 + (c - 48)) 0 : Nat) : Int) := by
+        simp only [decimalLiteral]
+        split
+        · rename_i ds heq; cases heq; exact absurd rfl hc
+        · simp [hl']
+      refine ⟨_, hdl, ?_⟩
+      generalize List.foldl (fun acc c => acc * 10 + (c - 48)) 0 (c :: rest) = N at a b ⊢
+      cases ovf
+      · have hv := a rfl
+        subst hv
+        by_cases hge : v ≥ 9223372036854775808
+        · right
+          refine ⟨⟨_, by simp [parseInt, hc, hc43, e, hge]; rfl⟩, ?_⟩
+          simp only [fitsInt64, Bool.and_eq_false_iff, decide_eq_false_iff_not]; omega
+        · left
+          refine ⟨by simp [parseInt, hc, hc43, e, hge], ?_⟩
+          simp only [fitsInt64, Bool.and_eq_true, decide_eq_true_eq]; omega
+      · have hv := b rfl
+        right
+        refine ⟨⟨_, by simp [parseInt, hc, hc43, e]; rfl⟩, ?_⟩
+        simp only [maxU64] at hv
+        simp only [fitsInt64, Bool.and_eq_false_iff, decide_eq_false_iff_not]; omega
+
+theorem parseInt_range_decimalLiteral {raw : Bytes} {c : Int} (hl : intLexeme raw = true)
+    (h : parseInt raw = .range c) : ∃ i, decimalLiteral raw = some i ∧ fitsInt64 i = false := by
+  obtain ⟨i, a, b | b⟩ := parseInt_lexeme hl
+  · rw [h] at b; simp at b
+  · exact ⟨i, a, b.2⟩
+
+theorem parseInt_lexeme_not_syntax {raw : Bytes} (hl : intLexeme raw = true) : parseInt raw ≠ .syntax := by
+  obtain ⟨i, _, ⟨b, _⟩ | ⟨⟨c, b⟩, _⟩⟩ := parseInt_lexeme hl <;> simp [b]
+
 end Gql
 
 namespace Gql
@@ -319,13 +422,17 @@ mutual
           obtain ⟨a, b⟩ := parseInt_decimalLiteral hl hp
           simp [literalSpec, a, b]
         | «syntax» => simp [hp] at h
-        | range c => simp [hp] at h
+        | range c =>
+          simp only [hp] at h; cases h
+          obtain ⟨i, a, b⟩ := parseInt_range_decimalLiteral hl hp
+          simp [literalSpec, a, b]
       case float =>
         simp only [valueValueWith] at h
+        simp only [wellLexedB] at hl
         cases hp : parseFloat raw with
-        | ok => simp only [hp] at h; cases h; simp [literalSpec, parseFloatOk, hp]
+        | ok => simp only [hp] at h; cases h; simp [literalSpec, hl]
         | «syntax» => simp [hp] at h
-        | range c => simp [hp] at h
+        | range c => simp only [hp] at h; cases h; simp [literalSpec, hl]
       case string => simp only [valueValueWith] at h; cases h; simp [literalSpec]
       case block => simp only [valueValueWith] at h; cases h; simp [literalSpec]
       case enum => simp only [valueValueWith] at h; cases h; simp [literalSpec]
@@ -397,15 +504,52 @@ end Gql
 namespace Gql
 open Gql.Strconv
 
+/- ---------- literals as the lexer writes them have no syntax errors for strconv ---------- -/
+
+mutual
+  theorem wellLexed_syntaxOk : (v : Value) → wellLexedB v = true → syntaxOkB v = true
+    | .mk kind raw ch p, h => by
+      cases kind
+      case int =>
+        simp only [wellLexedB] at h
+        have := parseInt_lexeme_not_syntax h
+        cases hp : parseInt raw <;> simp_all [syntaxOkB]
+      case float =>
+        simp only [wellLexedB] at h
+        have := parseFloat_lexeme_not_syntax h
+        cases hp : parseFloat raw <;> simp_all [syntaxOkB]
+      case boolean =>
+        simp only [wellLexedB, Bool.or_eq_true, decide_eq_true_eq] at h
+        simp only [syntaxOkB]
+        rcases h with h | h <;> subst h <;> decide
+      case list => simp only [wellLexedB] at h; simp only [syntaxOkB]; exact childrenWellLexed_syntaxOk ch h
+      case object => simp only [wellLexedB] at h; simp only [syntaxOkB]; exact childrenWellLexed_syntaxOk ch h
+      all_goals simp [syntaxOkB]
+  theorem childrenWellLexed_syntaxOk : (c : Children) → childrenWellLexedB c = true → childrenSyntaxOkB c = true
+    | .nil, _ => by simp [childrenSyntaxOkB]
+    | .cons n v p rest, h => by
+      simp only [childrenWellLexedB, Bool.and_eq_true] at h
+      simp only [childrenSyntaxOkB, Bool.and_eq_true]
+      exact ⟨wellLexed_syntaxOk v h.1, childrenWellLexed_syntaxOk rest h.2⟩
+end
+
+theorem defaultsLexed_syntaxOk {vdefs : List VarDef} (h : DefaultsLexed vdefs) : DefaultsSyntaxOk vdefs :=
+  fun d hd dv hdv => ⟨wellLexed_syntaxOk dv (h d hd dv hdv).1, (h d hd dv hdv).2⟩
+
+end Gql
+
+namespace Gql
+open Gql.Strconv
+
 theorem findArg_mem {args : List Argument} {n : Name} {a : Argument} (h : findArg args n = some a) : a ∈ args :=
   List.mem_of_find?_eq_some h
 
 /- ---------- totality of one step / of the loop ---------- -/
 
 theorem arg2mapStep_ok (vdefs : List VarDef) (args : List Argument) (vars : VarMap) (d : ArgDef) (result : GoFields)
-    (hargs : ∀ a ∈ args, convertsB a.value = true)
-    (hdef : ∀ dv, d.default = some dv → convertsB dv = true)
-    (hv : DefaultsConvert vdefs) : ∃ r, arg2mapStep vdefs args vars d result = .ok r := by
+    (hargs : ∀ a ∈ args, syntaxOkB a.value = true)
+    (hdef : ∀ dv, d.default = some dv → syntaxOkB dv = true)
+    (hv : DefaultsSyntaxOk vdefs) : ∃ r, arg2mapStep vdefs args vars d result = .ok r := by
   unfold arg2mapStep
   have dflt : ∃ r, argDefaultRes vdefs vars d result = .ok r := by
     unfold argDefaultRes
@@ -425,9 +569,9 @@ theorem arg2mapStep_ok (vdefs : List VarDef) (args : List Argument) (vars : VarM
       exact ⟨result.set d.name x, by simp [hk, hx]⟩
 
 theorem arg2mapLoop_ok (vdefs : List VarDef) (args : List Argument) (vars : VarMap)
-    (hargs : ∀ a ∈ args, convertsB a.value = true) (hv : DefaultsConvert vdefs) :
+    (hargs : ∀ a ∈ args, syntaxOkB a.value = true) (hv : DefaultsSyntaxOk vdefs) :
     ∀ (defs : List ArgDef) (result : GoFields),
-      (∀ d ∈ defs, ∀ dv, d.default = some dv → convertsB dv = true) →
+      (∀ d ∈ defs, ∀ dv, d.default = some dv → syntaxOkB dv = true) →
       ∃ m, arg2mapLoop vdefs args vars defs result = .ok m
   | [], result, _ => ⟨result, rfl⟩
   | d :: rest, result, hd => by
